@@ -256,12 +256,12 @@ StepC10m(op, form, b, k) ==
   <<Item(IdOf(b, k, 1), "and_then", "closure", <<>>), Item(IdOf(b, k, 2), op, form, <<>>), Item(IdOf(b, k, 3), "map", "closure", <<>>)>>
 FamC10m(dummy) ==
   UNION {{Run(P, pl, {}) : pl \in {<<>>} \cup {<<F(x)>> : x \in ItemIds(P, {"and_then"})}} :
-         P \in {LET S(b, k) == StepC10m(c[2], c[3], b, k) IN Build(c[1], "res", pr, S, NoName, ExprInit, "none") :
-                  \* (a call-expression operand of `->`, and of sync `??`, is the callee of the emitted call: Rust evaluates it
-                  \* before the receiver chain; that position is not pinned by the specification, so these pairs are left out)
-                  c \in {x \in Kinds8 \X OpsC11 \X {"call", "block"} :
-                          ~(x[3] = "call" /\ (x[2] = "then" \/ (x[2] = "inspect" /\ ~x[1].async)))},
-                  pr \in {<<1>>, <<2, 1>>}}}
+         P \in {LET S(b, k) == StepC10m(op, form, b, k) IN Build(kd, "res", pr, S, NoName, ExprInit, "none") :
+                  kd \in Kinds8, op \in OpsC11, form \in {"call", "block"}, pr \in {<<1>>, <<2, 1>>}}
+               \* two callee-first operands in one step (`-> f() ?? g() -> h()`): the later one is evaluated first
+               \cup {LET S(b, k) == <<Item(IdOf(b, k, 1), "then", "call", <<>>), Item(IdOf(b, k, 2), "inspect", "call", <<>>),
+                                       Item(IdOf(b, k, 3), "map", "call", <<>>), Item(IdOf(b, k, 4), "then", "call", <<>>)>>
+                      IN Build(kd, "res", pr, S, NoName, ExprInit, "none") : kd \in Kinds8, pr \in {<<1>>, <<2, 1>>}}}
 
 \* ---- C11: block operands: one operator at a time, in step k0, in several branches, initial blocks
 StepC11(op, k0, b, k) ==
